@@ -431,6 +431,12 @@ def w_gmrf_object(ctx, rng, i):
     n = n0 + sum(incs)
     X = gmrfmon.make_data(rng, n, V, k)
     shapes = [ms.PointCloud(r.reshape(V, k)) for r in X]
+    if rng.random() < 0.3:
+        # annotations stored as whole pixel positions in a compact integer type
+        X = np.round((X - X.min()) / max(1e-300, float(np.ptp(X))) * 240.0 + 5.0)
+        idt_ = [np.int16, np.uint8, np.uint16, np.int64][rng.integers(0, 4)]
+        shapes = [ms.PointCloud(r.reshape(V, k).astype(idt_)) for r in X]
+        ctx.bump("integer_typed_object_backed_gmrf_samples")
     sparse = bool(rng.random() < 0.5)
     stream = bool(i % 2)
     gmrfmon.clear()
